@@ -607,6 +607,140 @@ def c04(tier):
     return v.finish()
 
 
+# ------------------------------------------------------------------------------------------ broker (sequential regime)
+
+BROKER_CFG = """SPECIFICATION %(spec)s
+CONSTANTS
+ c1 = c1
+ c2 = c2
+ c3 = c3
+ L1 = L1
+ k1 = k1
+ k2 = k2
+ k3 = k3
+ NoCid = NoCid
+ Conns = {c1, c2}
+ Locals = {L1}
+ Cids = {k1, k2}
+ MaxQos = %(maxqos)d
+ MixedLevels = {"a+"}
+ MaxSteps = %(depth)d
+INVARIANTS TypeOK %(emit)s
+PROPERTIES StepProps
+%(view)s
+"""
+
+
+def broker_behaviours(v, spec, depth, mode="cover", maxqos=2):
+    """Behaviours of one Broker configuration: transition cover (one witness per transition of the
+    abstract state graph within depth steps; maximal witnesses are replayed) or all paths of that depth."""
+    cfg = BROKER_CFG % dict(spec=spec, depth=depth, maxqos=maxqos, emit="Emit" if mode == "cover" else "EmitFull",
+                            view="VIEW CoverView" if mode == "cover" else "")
+    r = core.cached_tlc("broker-%s-%s-%d-%d" % (spec, mode, depth, maxqos), "MCBroker", cfg, workers=1, timeout=1500)
+    v.tlc("%s(%s, depth %d)" % (spec, mode, depth), r)
+    behs = core.behaviours(r.lines)
+    if mode == "cover":
+        behs = core.leaves(behs, key=lambda x: [s["a"] for s in x])
+    return behs
+
+
+def broker_replay(v, pid, behs, label, auth="mockSuccess", maxqos=2, own_tags=None):
+    own_tags = own_tags or {pid}
+    res = core.merge(core.run_sharded(["brokerreplay", "-auth", auth, "-maxqos", str(maxqos)], behs, timeout=2400))
+    mine = [m for m in res.get("mismatches", []) if m.get("tag") in own_tags]
+    foreign = [m for m in res.get("mismatches", []) if m.get("tag") not in own_tags]
+    v.cov["parts"][label] = {"behaviours": res.get("evaluations", 0), "steps": res.get("steps", 0),
+                             "mismatching": res.get("nmismatch", 0), "own": len(mine), "diverged_foreign": len(foreign),
+                             "unreproduced": res.get("counts", {}).get("unreproduced", 0)}
+    v.cov["evaluations"] += res.get("evaluations", 0)
+    v.cov["traces_validated_against_impl"] += res.get("evaluations", 0)
+    v.cov["distinct_nontrivial"] += res.get("evaluations", 0)
+    v.cov["diverged_foreign"] = v.cov.get("diverged_foreign", 0) + len(foreign)
+    if foreign:
+        kinds = {}
+        for m in foreign:
+            kinds[m.get("tag")] = kinds.get(m.get("tag"), 0) + 1
+        v.notes.append("%s: %s behaviours diverged on observables of other properties %s, e.g. %s" % (
+            label, len(foreign), kinds, foreign[0]["what"][:300]))
+    v.mismatches(mine)
+    v.add_samples(res.get("samples") or [], 1)
+    for n in res.get("notes", [])[:3]:
+        v.notes.append(n)
+    return res
+
+
+BROKER_ASSUME = ["sequential regime: one stimulus at a time, broker reaction observed up to a PINGREQ/PINGRESP barrier on every connection",
+                 "bounded vocabularies and depths; 16 KiB rings; payload classes tiny / empty / big (6 KB: consecutive packets wrap the ring)",
+                 "packet identifiers of forwarded QoS>0 packets are only required to be non-zero here (C12 is about their distinctness)",
+                 "the retain flag of a live forward to an in-process (Server.Subscribe) callback is not specified (the library hands the publisher's message object to the callback)"]
+
+
+def broker_check(pid, tier, plan, own, rule):
+    v = Verdict(pid, tier)
+    thorough = tier == "thorough"
+    for spec, mode, dq, dt, auth in plan:
+        d = dt if thorough else dq
+        behs = broker_behaviours(v, spec, d, mode)
+        broker_replay(v, pid, behs, "%s(%s,%d)" % (spec, mode, d), auth=auth, own_tags=own)
+    v.cov["rule"] = rule + " distinct_nontrivial = behaviours replayed (each is a distinct operation sequence; cover mode: the maximal witnesses of one-witness-per-transition)."
+    v.cov["exhaustive"] = True
+    v.assumptions += BROKER_ASSUME
+    return v.finish()
+
+
+@check("C01")
+def c01(tier):
+    return broker_check("C01", tier, [("RoutingSpec", "cover", 4, 5, "mockSuccess"), ("RoutingSpec", "paths", 2, 3, "mockSuccess")], {"C01"},
+                        "Broker specification, configuration routing: 2 network clients + 1 in-process subscriber, filters {a/b,a/+,a/#,#,+/b}, names "
+                        "{a/b,a,a/b/c,c}, publish QoS x granted QoS in {0,1,2}^2, payloads tiny/empty/big; transition cover and all paths; after every "
+                        "step the PUBLISH packets on every connection (topic, payload bytes, QoS, retain flag) are compared with the specification's bag.")
+
+
+@check("C02")
+def c02(tier):
+    return broker_check("C02", tier, [("QosSpec", "paths", 6, 7, "mockSuccess")], {"C02", "C01"},
+                        "configuration qosrx: all operation sequences over QoS 2 PUBLISH (2 ids, DUP repeats with other content), PUBREL (3 ids incl. "
+                        "unknown), QoS 1 PUBLISH and 6 KB unrelated traffic that wraps the ring; acks on the publisher, hand-over to a witness subscriber.")
+
+
+@check("C07")
+def c07(tier):
+    return broker_check("C07", tier, [("SubsSpec", "cover", 5, 6, "mockSuccess")], {"C07", "C01", "C08"},
+                        "configuration subs: SUBSCRIBE requests with 1..9 filters incl. invalid filters and QoS 3, two packet ids, UNSUBSCRIBE lists of 1..9, "
+                        "probe publishes from a second client; SUBACK/UNSUBACK bytes and subsequent deliveries compared.")
+
+
+@check("C08")
+def c08(tier):
+    return broker_check("C08", tier, [("RetainSpec", "cover", 4, 5, "mockSuccess")], {"C08", "C01"},
+                        "configuration retain: retained / non-retained / empty-payload publishes (QoS 0..2) on parent, child and sibling topics, replacement by "
+                        "shorter and longer payloads, subscriptions with literal and wildcard filters (also two filters in one request, in-process subscriber); "
+                        "packets after SUBACK and live forwards compared incl. retain flag, QoS, payload bytes.")
+
+
+@check("C09")
+def c09(tier):
+    return broker_check("C09", tier, [("WillSpec", "paths", 6, 7, "mockSuccess"), ("WillSpec", "cover", 7, 8, "mockSuccess")], {"C09", "C01"},
+                        "configuration will: all sequences of connect (CleanSession x {no will, QoS 0, QoS 1 + retain, QoS 2 + empty payload}) / end (DISCONNECT, "
+                        "cut, malformed packet) on one client id, witness subscribed to '#'; the will deliveries per connection end are compared.")
+
+
+@check("C10")
+def c10(tier):
+    return broker_check("C10", tier, [("SessSpec", "cover", 5, 6, "mockSuccess"), ("SessSpec", "paths", 4, 4, "mockSuccess")], {"C10", "C01", "C07"},
+                        "configuration session: connect (CleanSession 0/1) / subscribe / unsubscribe / DISCONNECT / cut over two client ids and two slots, probe "
+                        "publishes; SessionPresent and deliveries to restored subscriptions compared.")
+
+
+@check("C11")
+def c11(tier):
+    return broker_check("C11", tier, [("AdmitSpec", "cover", 4, 5, "mockSuccess"), ("AuthSpec", "cover", 3, 3, "mockFailure")], {"C11", "C01", "C10", "C07"},
+                        "configuration admit: 14 kinds of refused first packets (unsupported level, name mismatch, client id too long / unprintable / empty with "
+                        "CleanSession 0, reserved flag, will flags, other packet types, truncated CONNECT, garbage, bad fixed-header flags) with follow-up "
+                        "SUBSCRIBE '#' and retained PUBLISH on the refused connection, accepting and rejecting authenticators; CONNACK bytes, closure, witness "
+                        "deliveries and a late subscriber's retained view compared.")
+
+
 # ------------------------------------------------------------------------------------------ misc
 
 def setup():
